@@ -32,6 +32,25 @@ fn accessors_ok(c: Cons, b: u8, a: char) -> bool {
         Cons::Navic => { let s = NavicSigId::new(b, a); s.band() == b && s.attribute() == a }
     }
 }
+/// the comparison operators and Ord helpers on a pair: [<, <=, >, >=, !=, max is y, min is x, clamp(x,x,y) is x]
+fn ops(c: Cons, x: (u8, char), y: (u8, char)) -> [bool; 6] {
+    macro_rules! go {
+        ($t:ty) => {{
+            let p = <$t>::new(x.0, x.1);
+            let q = <$t>::new(y.0, y.1);
+            [p < q, p <= q, p > q, p >= q, p != q, core::cmp::Ord::max(p, q) == q && core::cmp::Ord::min(p, q) == p]
+        }};
+    }
+    match c {
+        Cons::Gps => go!(GpsSigId),
+        Cons::Glo => go!(GloSigId),
+        Cons::Gal => go!(GalSigId),
+        Cons::Sbas => go!(SbasSigId),
+        Cons::Qzss => go!(QzssSigId),
+        Cons::Bds => go!(BdsSigId),
+        Cons::Navic => go!(NavicSigId),
+    }
+}
 fn cmp(c: Cons, x: (u8, char), y: (u8, char)) -> (Ordering, Option<Ordering>, bool) {
     macro_rules! go {
         ($t:ty) => {{
@@ -115,6 +134,15 @@ fn order_oracle(c: Cons, x: (u8, char), y: (u8, char), z: (u8, char)) -> Result<
             if pxy != Some(xy) {
                 return Err((format!("c18:{}:partial-cmp-disagrees", n), format!("partial_cmp({:?},{:?})={:?} but cmp={:?}", x, y, pxy, xy)));
             }
+            // the operators (PartialOrd's lt/le/gt/ge, PartialEq's ne) and Ord::max/min on recognised pairs
+            let o = ops(c, x, y);
+            let want = [a < b, a <= b, a > b, a >= b, a != b, a <= b];
+            if o != want {
+                return Err((
+                    format!("c18:{}:operators-disagree", n),
+                    format!("recognised {:?} (position {}) vs {:?} (position {}): [<, <=, >, >=, !=, max/min ordered] = {:?}, positions give {:?}", x, a, y, b, o, want),
+                ));
+            }
         }
         (Some(_), None) => {
             if xy != Ordering::Less {
@@ -166,7 +194,7 @@ pub fn run(ctx: &Ctx, replay: Option<&J>) -> CheckResult {
         RTCM/RINEX table; every recognised descriptor and every descriptor of bands 0..=9 x all Latin-1 attributes plus sampled others and the arithmetic neighbourhood of every recognised descriptor (band +-1, +-2, +-16, +128; attribute code point +-2^j and bit j flipped for j=0..20, case flipped) through a one-cell MSM1 message: recognised => \
         exactly one signal-mask bit, at the pinned position (2..32), decoding back to d (bijection counted both ways); unrecognised => InvalidSignalId. order: all pairs of Latin-1 attributes within bands 0, 1, 2, 5, 255, all pairs and \
         triples of recognised descriptors, all (recognised, near-miss) pairs, and seeded random triples: recognised compare by position, unrecognised after them, reflexive / \
-        antisymmetric / transitive / consistent with ==, partial_cmp == Some(cmp) on recognised pairs. all cases non-trivial; distinct by construction (enumeration) or by hash (samples)"
+        antisymmetric / transitive / consistent with ==, partial_cmp == Some(cmp) and the operators <, <=, >, >=, != and Ord::max/min agree with the positions on recognised pairs. all cases non-trivial; distinct by construction (enumeration) or by hash (samples)"
         .to_string();
     let assumptions = vec![
         "signal tables typed from RTCM 10403.3 MSM signal tables / RINEX codes in the harness (msm.rs), not read from the source".to_string(),
